@@ -84,6 +84,12 @@ lists every access**.  That proviso is the trusted part:
   of the referent (the least it can do), which flags every escape of a referent that is written under
   the lock anywhere – the pattern of `seeded/C05-status-unlocked-join` – but not a receiver that writes.
 
+The closure tables (`stageState`, `stageStateFuncfile`: the variables a stage builder of the expression
+library hands to the closure it returns) use `raceFreeClosures`: the builder's own body is the constructor
+(compile time, one goroutine), every function literal inside it is a flow that runs concurrently with
+itself (the same compiled stage is evaluated by every worker); calling a captured function value there is
+calling another stage, whose state is that builder's entry of the same table.
+
 The monitor tables (`aggregation`, `multiterm`, `termrenderers`) carry no locks of their own: these
 objects are only entered from `aggregator.Sample` and from `writeOutput`, both of which the role table
 of `RunAggregationLoop` shows to run under `outputMutex` or after the ticker has ended.  For them
@@ -93,7 +99,7 @@ to their state sent on a channel, handed to a `go` statement or parked in a pack
 namespace Rare.Lockset
 open Rare.Gen.Access
 
-instance : Inhabited Acc := ⟨⟨"", "", "", "", false, false, "", "", "", "", [], 0⟩⟩
+instance : Inhabited Acc := ⟨⟨"", "", "", "", false, false, "", "", "", 0, "", [], 0⟩⟩
 
 /-- Same memory location: the same field variable, or referents in the same region. -/
 def sameLoc (a b : Acc) : Bool :=
@@ -114,14 +120,29 @@ def safePair (a b : Acc) : Bool := (a.atomic && b.atomic) || locked a b || order
 def shared (constructors : List String) (accs : List Acc) : List Acc :=
   accs.filter fun a => !constructors.contains a.fn
 
+/-- Every conflicting pair of `s` is safe.  Conflict and safety are symmetric and a conflict needs a write, so it
+    is enough to pair every WRITE with every access (`Proofs/Lockset.lean: pairsSafe_iff` proves this is the same
+    as quantifying over all pairs; it keeps the kernel evaluation of the larger tables short). -/
+def pairsSafe (s : List Acc) : Bool :=
+  (s.filter (·.write)).all fun a => s.all fun b => !sameLoc a b || safePair a b
+
 /-- Struct tables: every function may run concurrently with every function, itself included. -/
 def raceFree (constructors : List String) (accs : List Acc) : Bool :=
-  let s := shared constructors accs
-  s.all fun a => s.all fun b => !conflict a b || safePair a b
+  pairsSafe (shared constructors accs)
+
+/-- Closure tables (variables a declared function's literals capture): the function's own body runs while
+    the closure is being built (one goroutine, before anybody can call the closure); the literals themselves
+    – compiled expression stages – are run by every worker, each concurrently with itself. -/
+def raceFreeClosures (accs : List Acc) : Bool :=
+  pairsSafe (accs.filter fun a => a.depth != 0)
+
+def offendersClosures (accs : List Acc) : List (Acc × Acc) :=
+  let s := accs.filter fun a => a.depth != 0
+  s.flatMap fun a => (s.filter fun b => conflict a b && !safePair a b).map fun b => (a, b)
 
 /-- Role tables: each role is one goroutine. -/
 def raceFreeRoles (accs : List Acc) : Bool :=
-  accs.all fun a => accs.all fun b => a.fn == b.fn || !conflict a b || safePair a b
+  (accs.filter (·.write)).all fun a => accs.all fun b => a.fn == b.fn || !sameLoc a b || safePair a b
 
 /-- Conflicting pairs that are not safe (for the witness search / replay). -/
 def offenders (constructors : List String) (accs : List Acc) : List (Acc × Acc) :=
